@@ -2,7 +2,7 @@
    header update, data section) composed. *)
 From Coq Require Import Lia ZifyNat ZifyN ZifyBool.
 From EZ Require Import Base Bytes Types Api Enc Dec Proofs_Bytes Proofs_Lookup Proofs_Param Proofs_Codec Proofs_Section
-  Proofs_Record Proofs_Chain Proofs_ChainW Proofs_HeaderCodec.
+  Proofs_Record Proofs_Chain Proofs_ChainW Proofs_HeaderCodec Proofs_Guards.
 Local Open Scope N_scope.
 
 Lemma last_split : forall A (l : list A), l <> [] -> exists l0 x, l = l0 ++ [x].
@@ -204,4 +204,79 @@ Proof.
   rewrite Hst. rewrite groups_records_canon by exact Hs.
   destruct (groups_records (groups s) 1 512 _ None) as [[recs dsp]| |]; cbn [obind]; try reflexivity.
   destruct (finish_section recs dsp) as [sec bl]. rewrite header_bytes_dstart, data_section_rename. reflexivity.
+Qed.
+
+(* ---------- the "header agrees with the parameters" hypothesis of load_save, declaratively ---------- *)
+Section Agree.
+Variable f_key : f32 -> outcome Z.
+Variable f_tosize : f32 -> outcome N.
+Variable f_div : f32 -> f32 -> f32.
+
+(* what updateHeader compares, for an object that is being loaded (no data yet) *)
+Definition header_agrees (gs : list group) (h : header) : Prop :=
+  exists rate k u ga au fz,
+    r_float0 0 gs nm_POINT nm_RATE = Ok rate /\ f_key rate = Ok k /\ f_key (h_rate h) = Ok k /\
+    r_int0 0 gs nm_POINT nm_USED = Ok u /\ z_to_usize u = h_points h /\
+    group_named gs nm_ANALOG = Ok ga /\ nlen (g_params ga) <> 0 /\
+    ((f_tosize rate = Ok 0 /\ h_byframe h = 1) \/
+     (exists rs ar, f_tosize rate = Ok rs /\ rs <> 0 /\ r_float0 0 gs nm_ANALOG nm_RATE = Ok ar /\ f_tosize (f_div ar rate) = Ok (h_byframe h))) /\
+    r_int0 0 gs nm_ANALOG nm_USED = Ok au /\ z_to_usize au = h_nb_analogs h /\
+    r_int0 0 gs nm_POINT nm_FRAMES = Ok fz /\ z_to_usize fz = h_nb_frames h.
+
+Lemma update_header_noop : forall h pr gs, header_agrees gs h ->
+  update_header f_key f_tosize f_div false (mkState h pr gs []) = ROk tt (mkState h pr gs []).
+Proof.
+  intros h pr gs (rate & k & u & ga & au & fz & Hr & Hk1 & Hk2 & Hu & Eu & Hga & Nga & Hbf & Hau & Eau & Hfz & Efz).
+  unfold update_header, uh_rate_points.
+  unfold bind at 1. unfold bind at 1. rewrite float0_pure. cbn [groups]. change (r_float0 12) with (r_float0 0). rewrite Hr. cbn [lift].
+  unfold bind at 1. cbv [getS]. unfold bind at 1. rewrite Hk1. cbn [lift hdr]. unfold bind at 1. rewrite Hk2. cbn [lift].
+  rewrite Z.eqb_refl. cbn [negb when]. unfold bind at 1. cbv [ret].
+  unfold bind at 1. rewrite int0_pure. cbn [groups]. change (r_int0 13) with (r_int0 0). rewrite Hu. cbn [lift].
+  unfold bind at 1. cbv [getS]. cbn [hdr]. rewrite Eu, N.eqb_refl. cbn [negb when]. unfold bind at 1. cbv [ret].
+  unfold bind at 1.
+  (* sub-frames: no data, so the rates decide *)
+  assert (Bf : byframe_step f_tosize f_div false rate (mkState h pr gs []) = ROk tt (mkState h pr gs [])).
+  { unfold byframe_step. unfold bind at 1. cbv [getS]. unfold analog_rate_step.
+    unfold bind at 1. cbv [getS]. unfold bind at 1.
+    assert (Gg : get_group nm_ANALOG (mkState h pr gs []) = ROk ga (mkState h pr gs [])).
+    { unfold get_group. cbv [bind getS]. cbn [groups]. rewrite Hga. reflexivity. }
+    rewrite Gg. apply N.eqb_neq in Nga. rewrite Nga. cbn [negb when].
+    destruct Hbf as [[Hz Hb1]|(rs & ar & Hrs & Nrs & Har & Hq)].
+    - unfold bind at 1. rewrite Hz. cbn [lift]. cbn [N.eqb hdr]. rewrite Hb1. reflexivity.
+    - unfold bind at 1. rewrite Hrs. cbn [lift]. apply N.eqb_neq in Nrs. rewrite Nrs.
+      unfold bind at 1. rewrite float0_pure. cbn [groups]. change (r_float0 15) with (r_float0 0). rewrite Har. cbn [lift].
+      unfold bind at 1. rewrite Hq. cbn [lift hdr]. rewrite N.eqb_refl. reflexivity. }
+  rewrite Bf. unfold bind at 1.
+  unfold uh_analogs. unfold bind at 1.
+  assert (Gg : get_group nm_ANALOG (mkState h pr gs []) = ROk ga (mkState h pr gs [])).
+  { unfold get_group. cbv [bind getS]. cbn [groups]. rewrite Hga. reflexivity. }
+  rewrite Gg. apply N.eqb_neq in Nga. rewrite Nga. cbn [negb].
+  unfold bind at 1. rewrite int0_pure. cbn [groups]. change (r_int0 17) with (r_int0 0). rewrite Hau. cbn [lift].
+  unfold bind at 1. cbv [getS]. cbn [hdr]. rewrite Eau, N.eqb_refl. cbn [negb when]. cbv [ret].
+  unfold uh_frames. unfold bind at 1. rewrite int0_pure. cbn [groups]. change (r_int0 10) with (r_int0 0). rewrite Hfz. cbn [lift].
+  unfold bind at 1. cbv [getS]. cbn [hdr]. rewrite Efz, N.eqb_refl. reflexivity.
+Qed.
+End Agree.
+
+(* load (save s) with the agreement stated declaratively *)
+Theorem load_save_agrees : forall f_key f_tosize f_div s bytes sec blocks pn an,
+  save s = Ok bytes -> section_bytes (pro s) (groups s) = Ok (sec, blocks) ->
+  wf_hdr (hdr s) -> wf_header (hdr s) ->
+  ok_tree (groups s) -> (nds (recs_of (groups s) 1) <= 1)%nat ->
+  (forall g, In g (groups s) -> is_placeholder g = false /\ group_ok g) ->
+  blocks + 1 < 256 -> ps_start (pro s) = 1 ->
+  Forall wf_item (items_v (groups s) 1 (blocks + 1)) ->
+  header_agrees f_key f_tosize f_div (map (canon_g (blocks + 1)) (groups s)) (with_dstart (hdr s) (blocks + 1)) ->
+  (let h := with_dstart (hdr s) (blocks + 1) in let gs := map (canon_g (blocks + 1)) (groups s) in
+   h_nb_frames h = nlen (frames s) /\ nlen (frames s) <= max_frames_vec /\
+   nlen (frames s) * (1 + 4 * h_points h + h_byframe h * (1 + h_nb_analogs h)) <= 1048576 /\
+   (if 0 <? h_points h then obind (group_named gs nm_POINT) (fun g => obind (param_named g nm_LABELS) values_as_string) = Ok pn else pn = []) /\
+   (if 0 <? h_nb_analogs h then obind (group_named gs nm_ANALOG) (fun g => obind (param_named g nm_LABELS) values_as_string) = Ok an else an = []) /\
+   (frames s <> [] -> (h_scale h < 0)%Z) /\
+   Forall (uniform (N.to_nat (h_points h)) (N.to_nat (h_byframe h)) (N.to_nat (h_nb_analogs h))) (frames s)) ->
+  load f_key f_tosize f_div bytes = Ok (reloaded s blocks pn an).
+Proof.
+  intros f_key f_tosize f_div s bytes sec blocks pn an Sv Hs Wh Wl Hok Hn Hg Hb Hst Wf Ha Hd.
+  apply (load_save f_key f_tosize f_div s bytes sec blocks pn an Sv Hs Wh Wl Hok Hn Hg Hb Hst Wf); [|exact Hd].
+  cbv zeta. apply update_header_noop. exact Ha.
 Qed.
